@@ -15,6 +15,8 @@
 package event
 
 import (
+	"errors"
+
 	"github.com/emitter-io/emitter/internal/message"
 	"github.com/emitter-io/emitter/internal/security"
 	"github.com/kelindar/binary"
@@ -27,6 +29,9 @@ const (
 	typeBan
 	typeConn
 )
+
+// errInvalidKey is returned when an event key received from the cluster is malformed.
+var errInvalidKey = errors.New("event: invalid event key")
 
 // Event represents an encodable event that happened at some point in time.
 type Event interface {
@@ -79,8 +84,12 @@ func decodeSubscription(k string, v []byte) (e Subscription, err error) {
 		err = binary.Unmarshal(v, &e)
 	}
 
-	// Decode the key
+	// Decode the key, it needs to have at least the peer, the connection and the contract
 	buffer := binary.ToBytes(k)
+	if len(buffer) < 20 {
+		return e, errInvalidKey
+	}
+
 	e.Peer = binary.BigEndian.Uint64(buffer[0:8])
 	e.Conn = security.ID(binary.BigEndian.Uint64(buffer[8:16]))
 	e.Ssid = make(message.Ssid, (len(buffer)-16)/4)
@@ -156,8 +165,12 @@ func decodeConnection(k string, v []byte) (e Connection, err error) {
 		err = binary.Unmarshal(v, &e)
 	}
 
-	// Decode the key
+	// Decode the key, it needs to have at least the peer and the connection
 	buffer := binary.ToBytes(k)
+	if len(buffer) < 16 {
+		return e, errInvalidKey
+	}
+
 	e.Peer = binary.BigEndian.Uint64(buffer[0:8])
 	e.Conn = security.ID(binary.BigEndian.Uint64(buffer[8:16]))
 	return e, err
